@@ -46,7 +46,7 @@ theorem server_update_total (a : AEAD) {g : ServerGlue} (d : Nat) (inbox : List 
     ∃ g' out, serverUpdate a g d inbox = .ok (g', out) ∧
       NS.ServerInv g'.netcode ∧ Room n g'.netcode ∧ g'.netcode.currentTime = g.netcode.currentTime + d ∧
       g'.netcode.clients.length = g.netcode.clients.length ∧ g'.renet.Inv ∧ SL.SMap.Sorted g'.renet.conns := by
-  obtain ⟨g', out, e, k, r⟩ := serverUpdate_total CI.goodP_winv a d inbox hnc hroom hclock ⟨hi, hs⟩
+  obtain ⟨g', out, e, k, r⟩ := serverUpdate_total goodP_winv a d inbox hnc hroom hclock ⟨hi, hs⟩
   exact ⟨g', out, e, k.inv, k.room, k.time, k.len, r.inv, r.sorted⟩
 
 /-! ### instance: client 7 connected, hostile inbox -/
@@ -121,7 +121,7 @@ theorem server_disconnect_all_total (a : AEAD) {g : ServerGlue} (hnc : NS.Server
     (hs : SL.SMap.Sorted g.renet.conns) :
     ∃ g' out, serverDisconnectAll a g = .ok (g', out) ∧ NS.ServerInv g'.netcode ∧ g'.renet.Inv ∧
       SL.SMap.Sorted g'.renet.conns := by
-  obtain ⟨g', out, e, k, r⟩ := serverDisconnectAll_inv CI.goodP_winv a hnc ⟨hi, hs⟩
+  obtain ⟨g', out, e, k, r⟩ := serverDisconnectAll_inv goodP_winv a hnc ⟨hi, hs⟩
   exact ⟨g', out, e, k, r.inv, r.sorted⟩
 
 example : ∃ g' out, serverDisconnectAll toyAead exG1 = .ok (g', out) ∧ NS.ServerInv g'.netcode ∧ g'.renet.Inv := by
@@ -138,18 +138,20 @@ theorem server_run_total (a : AEAD) (ops : List GlueOp) (st : GState) (hnc : NS.
     (hi : st.1.renet.Inv) (hs : SL.SMap.Sorted st.1.renet.conns) (hpre : TPre a st ops) :
     ∃ st', runGlue a st ops = .ok st' ∧ NS.ServerInv st'.1.netcode ∧ st'.1.renet.Inv ∧
       SL.SMap.Sorted st'.1.renet.conns := by
-  obtain ⟨st', e, k, r⟩ := runGlue_total CI.goodP_winv a ops st ⟨hnc, hi, hs⟩ hpre
+  obtain ⟨st', e, k, r⟩ := runGlue_total goodP_winv a ops st ⟨hnc, hi, hs⟩ hpre
   exact ⟨st', e, k, r.inv, r.sorted⟩
 
-/-- the same from a fresh `NetcodeServer::new` + `RenetServer::new` -/
+/-- the same from a fresh `NetcodeServer::new` + `RenetServer::new`; the two tables also end in lock-step (C20) -/
 theorem server_run_total_fresh (a : AEAD) {now maxClients pid : Nat} {addrs : List Addr} {secure : Bool} {pk ck : Bytes}
     {ns : NetcodeServer} (hnew : NetcodeServer.new now maxClients pid addrs secure pk ck = .ok ns) (budget : Nat)
     (sc cc : List ChanCfg) (ops : List GlueOp)
     (hpre : TPre a ({ netcode := ns, renet := Server.new budget sc cc }, []) ops) :
     ∃ st', runGlue a ({ netcode := ns, renet := Server.new budget sc cc }, []) ops = .ok st' ∧
-      NS.ServerInv st'.1.netcode ∧ st'.1.renet.Inv := by
-  obtain ⟨st', e, k, r⟩ := runGlue_total CI.goodP_winv a ops _ (tInv_fresh hnew budget sc cc) hpre
-  exact ⟨st', e, k, r.inv⟩
+      NS.ServerInv st'.1.netcode ∧ st'.1.renet.Inv ∧ LockStep st'.1 := by
+  obtain ⟨st', e, k, r⟩ := runGlue_total goodP_winv a ops _ (tInv_fresh hnew budget sc cc) hpre
+  have h2 := runGlue_inv2 goodP_winv a ops _ st' e (tpre_gpre a ops _ hpre)
+    (gInv2_fresh (new_clientsId hnew) budget sc cc)
+  exact ⟨st', e, k, r.inv, h2.1.1⟩
 
 /-- instance: the full handshake run of C20 (`hsOps`: request, response, a message, `send_packets`, a server-side
     disconnect, …) from the fresh two-slot server; the range conditions are checked by evaluation -/
